@@ -71,7 +71,7 @@ def gen_ops(rng, model):
         if rng.chance(0.45):
             ch = None
         else:
-            ch = sorted(rng.sample(range(nch), rng.randrange(1, nch + 1)))
+            ch = sorted(rng.sample(range(nch), rng.wpick([(3, rng.randrange(1, nch + 1)), (2, rng.randrange(1, min(nch, 4) + 1))])))
         ops.append(['load', fi, sl, ch, reuse and ch is not None])
     return ops
 
